@@ -580,6 +580,26 @@ func emit(g group) (string, []string) {
 				}
 			}
 			fmt.Fprintf(&b, "/-- %s: package-level variables that none of `%s` assigns at its top level %s -/\ndef %s : List String := [%s]\n", f.File, f.Func, f.Doc, f.Name, strings.Join(un, ", "))
+		case "callarg":
+			// String: the printed Sel-th argument of the first call of `Ident` in the function
+			fd := findFunc(af, f.Func)
+			if fd == nil {
+				fail("function not found")
+				continue
+			}
+			ai, _ := strconv.Atoi(f.Sel)
+			txt, found := "", false
+			ast.Inspect(fd.Body, func(n ast.Node) bool {
+				if c, ok := n.(*ast.CallExpr); ok && !found && show(c.Fun) == f.Ident && ai < len(c.Args) {
+					txt, found = show(c.Args[ai]), true
+				}
+				return true
+			})
+			if !found {
+				fail("call of `" + f.Ident + "` not found")
+				continue
+			}
+			fmt.Fprintf(&b, "/-- %s: %s — argument %d of the call of `%s` %s -/\ndef %s : String := %s\n", f.File, f.Func, ai, f.Ident, f.Doc, f.Name, leanStr(txt))
 		case "callsfn":
 			// Nat: how many statements (anywhere in the body) call the function `Ident`, and does the first come before the call of `Sel` (if given)?
 			fd := findFunc(af, f.Func)
